@@ -18,7 +18,8 @@ func init() {
 			"R3 a change that does not match is a no-op: nothing is called between its false verdict and the next change; R4 if a step fails the runner reports matched == false with the error recorded (the file is left untouched), and the library returns the error and no bytes; " +
 			"R5 no state derived from the file survives from one change to the next other than the file itself: matching and replacing never write the compiled program or package-level variables. " +
 			"R1 also: every non-empty line of the -P list is loaded as often as it is listed (no path of an iteration skips LoadFile except for an empty line), LoadFile succeeds only after LoadReader ran and LoadReader only after appending the program; R6 no stale parse-time state — File.Unresolved, File.Scope, Ident.Obj, Object.*, Scope.* (computed once by go/parser, not maintained by replacements) are read nowhere except the inventoried conservative Obj == nil test of usesNameAsTopLevel. " +
-			"NOT decided: the claimed equivalence with a chain of separate runs (stale positions, Ident.Obj, shared comment lists after in-place mutation) — a runtime relation between two executions.",
+			"NOT decided: the claimed equivalence with a chain of separate runs (stale positions, Ident.Obj, shared comment lists after in-place mutation) — a runtime relation between two executions." +
+			" R6 also: nothing reachable from Change.Match in the VTA call graph reads parse-time resolution state.",
 		Trusted:     commonTrusted,
 		Assumptions: commonAssumptions,
 	})
